@@ -325,14 +325,47 @@ def extract():
 # check-then-act split).  Sites in the single-threaded phases (constructor, setup, clear, solve before the threads start)
 # and the const progress getters are listed but not part of the obligation.
 PLANNER_FIELDS = [
-    # (class, file, field, mutex, worker functions, other files with worker sites)
-    ("CForest", "geometric/planners/cforest/src/CForest.cpp", "bestCost_", "newSolutionFoundMutex_", ["newSolutionFound"]),
-    ("CForest", "geometric/planners/cforest/src/CForest.cpp", "numPathsShared_", "newSolutionFoundMutex_", ["newSolutionFound"]),
-    ("CForest", "geometric/planners/cforest/src/CForest.cpp", "numStatesShared_", "newSolutionFoundMutex_", ["newSolutionFound"]),
+    # (class, file, field, mutex expression, worker functions[, hint regexes])
+    # (CForest's three progress getters are polled from other threads — F191 — and are worker functions of their fields.)
+    # hint regexes: source lines of UNGUARDED worker sites that are deliberate optimistic reads (loop-exit / pre-check hints,
+    # re-checked under the lock before any write); they are listed in the table, not part of the obligation.
+    ("CForest", "geometric/planners/cforest/src/CForest.cpp", "bestCost_", "newSolutionFoundMutex_", ["newSolutionFound", "getBestCost"]),
+    ("CForest", "geometric/planners/cforest/src/CForest.cpp", "numPathsShared_", "newSolutionFoundMutex_", ["newSolutionFound", "getNumPathsShared"]),
+    ("CForest", "geometric/planners/cforest/src/CForest.cpp", "numStatesShared_", "newSolutionFoundMutex_", ["newSolutionFound", "getNumStatesShared"]),
     ("CForest", "geometric/planners/cforest/src/CForest.cpp", "statesShared_", "newSolutionFoundMutex_", ["newSolutionFound"]),
     ("CForest", "geometric/planners/cforest/CForest.h", "samplers_", "addSamplerMutex_", ["addSampler"]),
     ("CForestStateSampler", "geometric/planners/cforest/src/CForestStateSampler.cpp", "statesToSample_", "statesLock_",
      ["setStatesToSample", "getNextSample", "clear"]),
+    # pRRT: the tree under nnLock_, the shared SolutionInfo under sol->lock
+    # (a worker LOOP legitimately enters several critical sections per iteration — nearest, later add; exact / approximate branch —
+    # so for these the one-lock-scope-per-function rule is off: "loop"; each of them is a separate step of the model, PStep)
+    ("pRRT", "geometric/planners/rrt/src/pRRT.cpp", "nn_", "nnLock_", ["threadSolve"], ["loop"]),
+    ("pRRT", "geometric/planners/rrt/src/pRRT.cpp", "solution", "sol->lock", ["threadSolve"],
+     [r"^while \(sol->solution == nullptr && ptc == false\)$"]),
+    ("pRRT", "geometric/planners/rrt/src/pRRT.cpp", "approxdif", "sol->lock", ["threadSolve"], ["loop", r"^if \(dist < sol->approxdif\)$"]),
+    ("pRRT", "geometric/planners/rrt/src/pRRT.cpp", "approxsol", "sol->lock", ["threadSolve"]),
+    # pSBL: the per-tree grid / PDF under tree.lock (removeMotion runs in the exclusive phase of the loopLock_ scheme — F39 — and is
+    # not a worker function here), the removal list under its own lock, the found flag under sol->lock
+    ("pSBL", "geometric/planners/sbl/src/pSBL.cpp", "pdf", "tree.lock", ["addMotion", "selectMotion"]),
+    ("pSBL", "geometric/planners/sbl/src/pSBL.cpp", "grid", "tree.lock", ["addMotion"]),
+    ("pSBL", "geometric/planners/sbl/src/pSBL.cpp", "motions", "removeList_.lock", ["threadSolve", "isPathValid"]),
+    ("pSBL", "geometric/planners/sbl/src/pSBL.cpp", "found", "sol->lock", ["threadSolve"],
+     [r"^while \(!sol->found && ptc == false\)$", r"^while \(retry && !sol->found && ptc == false\)$", r"^if \(sol->found \|\| ptc\)$"]),
+    # PRM: the solution thread reads the roadmap only under graphMutex_ (the roadmap thread is the single writer)
+    ("PRM", "geometric/planners/prm/src/PRM.cpp", "stateProperty_", "graphMutex_", ["maybeConstructSolution", "constructSolution"]),
+    ("PRM", "geometric/planners/prm/src/PRM.cpp", "g_", "graphMutex_", ["constructSolution"]),
+    # AnytimePathShortening: best cost under lock_ in the planner threads' addPath, start/goal failure counts under their lock
+    ("AnytimePathShortening", "geometric/planners/AnytimePathShortening.cpp", "bestCost_", "lock_", ["addPath"]),
+    ("AnytimePathShortening", "geometric/planners/AnytimePathShortening.cpp", "invalidStartStateCount_", "invalidStartOrGoalLock_", ["threadSolve"]),
+    ("AnytimePathShortening", "geometric/planners/AnytimePathShortening.cpp", "invalidGoalCount_", "invalidStartOrGoalLock_", ["threadSolve"]),
+    # ParallelPlan: solution count and the hybridization object shared by the planner threads
+    ("ParallelPlan", "tools/multiplan/src/ParallelPlan.cpp", "foundSolCount_", "foundSolCountLock_", ["solveOne", "solveMore"]),
+    ("ParallelPlan", "tools/multiplan/src/ParallelPlan.cpp", "phybrid_", "phlock_", ["solveMore"]),
+    # GoalLazySamples: the sampling thread's stop flag and the goal states under lock_
+    ("GoalLazySamples", "base/goals/src/GoalLazySamples.cpp", "terminateSamplingThread_", "lock_",
+     ["goalSamplingThread", "isSampling", "startSampling", "stopSampling"],
+     [r"^while \(!terminateSamplingThread_ && !si_->isSetup\(\)\)$"]),
+    ("GoalLazySamples", "base/goals/src/GoalLazySamples.cpp", "states_", "lock_", ["addStateIfDifferent", "clear"]),
 ]
 
 
@@ -384,14 +417,20 @@ def scan_field(path, field, mutex):
 
 def extract_planner_fields():
     out = []
-    for cls, rel, field, mutex, workers in PLANNER_FIELDS:
+    for entry in PLANNER_FIELDS:
+        cls, rel, field, mutex, workers = entry[:5]
+        hints = [h for h in (entry[5] if len(entry) > 5 else []) if h != "loop"]
+        loop = len(entry) > 5 and "loop" in entry[5]
         path = os.path.join(SRC, rel)
         if not os.path.isfile(path):
             raise SystemExit("shared_access: %s is missing" % path)
         files = [path]
         # the class's header and source both count
-        alt = path.replace("/src/", "/").replace(".cpp", ".h") if path.endswith(".cpp") else \
-            os.path.join(os.path.dirname(path), "src", os.path.basename(path).replace(".h", ".cpp"))
+        if path.endswith(".cpp"):
+            d = os.path.dirname(path)
+            alt = os.path.join(os.path.dirname(d) if os.path.basename(d) == "src" else d, os.path.basename(path).replace(".cpp", ".h"))
+        else:
+            alt = os.path.join(os.path.dirname(path), "src", os.path.basename(path).replace(".h", ".cpp"))
         if os.path.isfile(alt):
             files.append(alt)
         sites = []
@@ -402,13 +441,14 @@ def extract_planner_fields():
         worker = [st for st in sites if st["fn"] in workers]
         if not worker:
             raise SystemExit("shared_access: no access to %s::%s in %s (renamed? update PLANNER_FIELDS)" % (cls, field, workers))
-        bad = [dict(st, why="no lock") for st in worker if not st["held"]]
+        hinted = [st for st in worker if not st["held"] and any(re.search(h, st["text"]) for h in hints)]
+        bad = [dict(st, why="no lock") for st in worker if not st["held"] and st not in hinted]
         per_fn = {}
         for st in worker:
             if st["held"]:
                 per_fn.setdefault((st["file"], st["fn"]), {}).setdefault(st["scope"], []).append(st)
         for key, scopes in per_fn.items():
-            if len(scopes) > 1:
+            if len(scopes) > 1 and not loop:
                 for sc in sorted(scopes)[1:]:
                     bad.append(dict(scopes[sc][0], why="second lock scope in one function"))
         other = [st for st in sites if st["fn"] not in workers]
@@ -417,7 +457,8 @@ def extract_planner_fields():
             "workers": workers, "worker_sites": len(worker),
             "unguarded": ["%s:%d %s (%s)" % (st["file"], st["line"], st["fn"], st["why"]) for st in bad],
             "unguarded_text": [st["text"] for st in bad][:6],
-            "other_sites": sorted(set("%s:%d %s%s" % (st["file"], st["line"], st["fn"], "" if st["held"] else " (no lock)") for st in other)),
+            "other_sites": sorted(set("%s:%d %s%s" % (st["file"], st["line"], st["fn"], "" if st["held"] else " (no lock)") for st in other) |
+                                  set("%s:%d %s (no lock: optimistic hint read)" % (st["file"], st["line"], st["fn"]) for st in hinted)),
         })
     return out
 
